@@ -273,7 +273,7 @@ fn dotted_text(s: &[char]) -> bool {
 }
 // ---- the class of ALNUM texts of Proofs/C18LexAlnum.v (phase 5: digits, periods, straight apostrophe), evaluated
 // with the real predicates
-const BAD3: &[char] = &['@', ':', '[', '’', '‘', '＇']; // = C18LexAlnum.bad3
+const BAD3: &[char] = &['@', ':', '[', '‘', '＇']; // = C18LexAlnum.bad3 (phase 6: U+2019 is inside the class)
 fn dch(c: char) -> bool {
     c.is_ascii_digit() && c.is_numeric()
 }
@@ -298,7 +298,7 @@ fn q_plural(s: &[char], i: usize) -> bool {
     i + 1 < s.len() && s[i].is_ascii_alphanumeric() && matches!(s[i + 1], 's' | 'S') && la3(s, i + 2) && (s[i].is_ascii_digit() || hostname_token_here(s, i))
 }
 fn q_apos(s: &[char], i: usize) -> bool {
-    i + 2 < s.len() && s[i].is_ascii_alphanumeric() && s[i + 1] == '\'' && matches!(s[i + 2], 's' | 'S') && la3(s, i + 3)
+    i + 2 < s.len() && s[i].is_ascii_alphanumeric() && matches!(s[i + 1], '\'' | '’') && matches!(s[i + 2], 's' | 'S') && la3(s, i + 3)
 }
 fn q_hex(s: &[char], i: usize) -> bool {
     i + 2 < s.len() && s[i] == '0' && matches!(s[i + 1], 'x' | 'X') && s[i + 2].is_ascii_hexdigit()
@@ -326,7 +326,7 @@ fn alnum_pattern(s: &[char]) -> &'static str {
     } else if (0..s.len()).any(|i| start_ok(s, i) && q_plural(s, i)) {
         "Q_plural(letter+s+hostname=FC18c)"
     } else {
-        "Q_apos(alnum+'s)"
+        "Q_apos(alnum+'s or alnum+’s)"
     }
 }
 /// ickey of Proofs/C18PassesIC.v: the ASCII lower-case letter of an ASCII letter, 0 for any other character
@@ -584,6 +584,39 @@ fn check_text(rep: &mut Report, world: &World, text: &str, origin: &str, r: Opti
                 rep.fail("alnum_lex_blind", format!("Document::new gives different spans / kinds for a text of the alnum class and its ASCII-case scramble ({name}) {:?}", s2.to_string()), inp.clone());
             }
         }
+        // ---- C18_lex_curly_stable / C18_lex_alnum4_stable on the implementation (phase 6): a text of the class with
+        // U+2019 and the texts where all / the first / every second U+2019 is written as ' (Ra), and the same under an
+        // ASCII-case scramble (Rl4), are inside the class and cut alike by PlainEnglish::parse and by Document::new
+        if src.contains(&'’') {
+            let all: Vec<char> = src.iter().map(|c| if *c == '’' { '\'' } else { *c }).collect();
+            let mut seen = 0usize;
+            let first: Vec<char> = src.iter().map(|c| if *c == '’' { seen += 1; if seen == 1 { '\'' } else { *c } } else { *c }).collect();
+            let mut seen2 = 0usize;
+            let second: Vec<char> = src.iter().map(|c| if *c == '’' { seen2 += 1; if seen2 % 2 == 0 { '\'' } else { *c } } else { *c }).collect();
+            let all_upper: Vec<char> = all.iter().map(|c| c.to_ascii_uppercase()).collect();
+            for (name, s2) in [("all straight", all), ("first straight", first), ("every second straight", second), ("all straight + upper", all_upper)] {
+                if s2 == src {
+                    continue;
+                }
+                rep.monitor("lex_curly_stable:checked", 1);
+                if !alnum_text(&s2) {
+                    rep.monitor("lex_curly_stable:violated", 1);
+                    rep.fail("curly_lex_blind", format!("the text with U+2019 written as ' ({name}) {:?} of a text of the alnum class is outside the class (C18_alnum_closed_rl4 says it is inside)", s2.to_string()), inp.clone());
+                    continue;
+                }
+                let l2 = guarded(|| PlainEnglish.parse(&s2)).map(|t| lex_shape(&t));
+                if l0.is_err() != l2.is_err() || (l0.is_ok() && l0.as_ref().ok() != l2.as_ref().ok()) {
+                    rep.monitor("lex_curly_stable:violated", 1);
+                    rep.fail("curly_lex_blind", format!("PlainEnglish::parse cuts a text of the alnum class and the text with U+2019 written as ' ({name}) {:?} differently (C18_lex_alnum4_stable says it does not)", s2.to_string()), inp.clone());
+                    continue;
+                }
+                let d2 = guarded(|| Document::new_from_vec(Lrc::new(s2.clone()), &PlainEnglish, dict)).map(|d| lex_shape(d.get_tokens()));
+                if d2.as_ref().ok() != Some(&lex_shape(&toks)) {
+                    rep.monitor("lex_curly_stable:violated", 1);
+                    rep.fail("curly_lex_blind", format!("Document::new gives different spans / kinds for a text of the alnum class and the text with U+2019 written as ' ({name}) {:?}", s2.to_string()), inp.clone());
+                }
+            }
+        }
     }
     if let Some(r) = r {
         if toks.len() >= 2 {
@@ -631,7 +664,9 @@ fn check_text(rep: &mut Report, world: &World, text: &str, origin: &str, r: Opti
     if is_alnum {
         rep.count("class3:alnum(C18_str_idempotent_alnum applies)");
         if !is_plain && !is_dotted {
-            rep.count(if src.iter().any(|c| c.is_ascii_digit()) {
+            rep.count(if src.contains(&'’') {
+                "class3:alnum_only:has_curly_apostrophe(phase 6)"
+            } else if src.iter().any(|c| c.is_ascii_digit()) {
                 "class3:alnum_only:has_digit"
             } else if src.contains(&'\'') {
                 "class3:alnum_only:has_apostrophe"
@@ -640,8 +675,10 @@ fn check_text(rep: &mut Report, world: &World, text: &str, origin: &str, r: Opti
             });
         }
     } else {
-        let why = if src.iter().any(|c| BAD3.contains(c)) {
-            "curly_apostrophe_at_colon_bracket".to_string()
+        let why = if src.iter().any(|c| matches!(c, '@' | ':' | '[')) {
+            "at_colon_bracket".to_string()
+        } else if src.iter().any(|c| BAD3.contains(c)) {
+            "left_quote_or_fullwidth_apostrophe(U+2018,U+FF07)".to_string()
         } else if !src.iter().all(|c| char3(*c)) {
             "other_character(non-ASCII numeric..)".to_string()
         } else if src.iter().any(|c| world.unstable3.contains(c)) {
@@ -767,6 +804,11 @@ fn check_text(rep: &mut Report, world: &World, text: &str, origin: &str, r: Opti
         }
         if is_alnum {
             rep.monitor("H_relex_alnum:checked", 1);
+            // phase 6: how often title-casing really writes ' over U+2019 in a text of the class (the Ra step of Rl4)
+            if src.len() == outc.len() && src.iter().zip(outc.iter()).any(|(a, c)| *a == '’' && *c == '\'') {
+                rep.monitor("H_relex_alnum:with_straightened_apostrophe", 1);
+                rep.count("class3:alnum:title_case_straightens_a_curly_apostrophe");
+            }
             if !alnum_text(&outc) {
                 rep.monitor("H_relex_alnum:violated", 1);
                 rep.fail("alnum_relex", "the title case of a text of the alnum class is not in the class (C18_str_relex_alnum says it is)".into(), inp.clone());
@@ -1340,6 +1382,12 @@ fn unstable_chars(rep: &mut Report) -> (std::collections::HashSet<char>, std::co
     rep.extra.insert("plain_characters_not_case_stable".into(), json!(bad.iter().map(|c| format!("U+{:04X}", *c as u32)).collect::<Vec<_>>()));
     rep.monitor("case_stable2:dotted_characters_that_are_not_case_stable", bad2.len() as u64);
     rep.extra.insert("dotted_characters_not_case_stable".into(), json!(bad2.iter().map(|c| format!("U+{:04X}", *c as u32)).collect::<Vec<_>>()));
+    // apostrophe_in_class (premise of the alnum string theorems since phase 6): ' is a character of the class
+    rep.monitor("apostrophe_in_class:checked", 1);
+    if !char3('\'') || !char3('’') {
+        rep.monitor("apostrophe_in_class:violated", 1);
+        rep.fail("apostrophe_in_class", "the straight apostrophe or U+2019 is not a character of the alnum class with the real Unicode predicates".into(), json!({"kind": "text", "text": "'"}));
+    }
     rep.monitor("case_stable3:alnum_characters_that_are_not_case_stable", bad3.len() as u64);
     rep.extra.insert("alnum_characters_not_case_stable".into(), json!(bad3.iter().map(|c| format!("U+{:04X}", *c as u32)).collect::<Vec<_>>()));
     detail.sort();
